@@ -251,7 +251,7 @@ func init() {
 	// ------------------------------------------------------------------ C06
 	register(&Prop{
 		ID: "C06", Level: "exploration", QuickS: 25, ThoroughS: 420,
-		Rule:       "seeded histories of Parse/Bind/Describe/Execute/Close/Flush/Sync over <=3 statement and <=3 portal names (incl. the empty name and names never defined) interleaved with simple queries, oversized and unknown messages, parsers and statement functions scripted to fail; delivered pipelined, one message per quiescence point, or grouped; judged message by message against the reference model with discard-until-Sync, including that each designated reply is on the wire when the server next waits for input; non-trivial = an ErrorResponse occurred and at least one later message of the same batch was judged; distinct = distinct case content hashes",
+		Rule:       "seeded histories of Parse/Bind/Describe/Execute/Close/Flush/Sync over <=3 statement and <=3 portal names (incl. the empty name and names never defined) interleaved with simple queries, oversized and unknown messages, parsers and statement functions scripted to fail; delivered pipelined, one message per quiescence point, or grouped; judged message by message against the reference model with discard-until-Sync, including that each designated reply is on the wire when the server next waits for input; units that repeat an earlier Parse verbatim and that bind one statement several times with result-format lists differing in spelling or one position; long results (a row repeated 17-3000 times, up to 300 columns); non-trivial = an ErrorResponse occurred and at least one later message of the same batch was judged; distinct = distinct case content hashes",
 		Components: e1Components, Assumptions: commonAssumptions,
 		Gen: func(r *Rand, tier string) *Case {
 			c := &Case{Server: ServerCfg{Limit: smallLimit(r)}}
@@ -274,7 +274,7 @@ func init() {
 	// ------------------------------------------------------------------ C13
 	register(&Prop{
 		ID: "C13", Level: "exploration", QuickS: 25, ThoroughS: 420,
-		Rule:       "seeded COPY-in histories: a statement starts COPY (text or binary, 1-4 columns) and follows a scripted read plan (read k chunks and complete / fail after k chunks / read to the end and report the outcome); the client follows CopyInResponse with sequences over CopyData(0..300 bytes)/CopyDone/CopyFail/Flush/Sync/foreign messages, plus stray COPY messages outside COPY mode, in simple and extended protocol; non-trivial = a CopyInResponse was sent and the handler observed at least one COPY read outcome; distinct = distinct case content hashes",
+		Rule:       "seeded COPY-in histories: a statement starts COPY (text or binary, 1-4 columns) and follows a scripted read plan (read k chunks and complete / fail after k chunks / read to the end and report the outcome); the client follows CopyInResponse with sequences over CopyData(0..300 bytes)/CopyDone/CopyFail/Flush/Sync/foreign messages, plus stray COPY messages outside COPY mode, in simple and extended protocol; foreign messages inside the stream include Terminate, Describe, Close and Bind; non-trivial = a CopyInResponse was sent and the handler observed at least one COPY read outcome; distinct = distinct case content hashes",
 		Components: e1Components, Assumptions: commonAssumptions,
 		Gen: func(r *Rand, tier string) *Case {
 			c := &Case{Server: ServerCfg{Limit: smallLimit(r)}}
@@ -386,7 +386,7 @@ func init() {
 	// ------------------------------------------------------------------ C07
 	register(&Prop{
 		ID: "C07", Level: "exploration", QuickS: 25, ThoroughS: 420,
-		Rule:        "seeded histories of Parse/Bind/Describe/Execute/Close over a pool of 3 statement and 3 portal names (incl. the unnamed ones); every Parse carries a unique query text, parameter list and column set so that each later Describe/Execute is attributable to exactly one definition; judged against the per-connection two-map namespace model (statement current at Bind time, Bind's parameters and result formats, Close removes); E2 variant: 2-3 connections run such histories over the same names under seeded schedules and each must equal its own model run; non-trivial = a name was re-used (re-parsed / re-bound / closed) before a later use; distinct = distinct case content hashes",
+		Rule:        "seeded histories of Parse/Bind/Describe/Execute/Close over a pool of 3 statement and 3 portal names (incl. the unnamed ones); every Parse carries a unique query text, parameter list and column set so that each later Describe/Execute is attributable to exactly one definition; judged against the per-connection two-map namespace model (statement current at Bind time, Bind's parameters and result formats, Close removes); E2 variant: 2-3 connections run such histories over the same names under seeded schedules and each must equal its own model run; a sixth of the histories contain a churn unit (20-260 Parse/Close cycles of one name, distinct live names, or Bind/Close of portals); non-trivial = a name was re-used (re-parsed / re-bound / closed) before a later use; distinct = distinct case content hashes",
 		Components:  append(append([]string{}, e1Components...), "E2 share: seeded scheduler (harness/kernel.go) decides every interleaving of the connection goroutines at transport operations, callbacks and spliced schedule points"),
 		Assumptions: commonAssumptions,
 		Gen: func(r *Rand, tier string) *Case {
@@ -395,7 +395,7 @@ func init() {
 				return genConcurrent(r, r.Range(2, 4), histOpts{extended: true, closes: true, params: true, binary: true, unknownNames: true, maxUnits: units(tier, 6)}, 4096)
 			}
 			c := &Case{Server: ServerCfg{Limit: smallLimit(r)}}
-			genHistory(r, c, histOpts{extended: true, closes: true, params: true, binary: true, unknownNames: true, errs: r.Bool(), maxUnits: units(tier, 10)})
+			genHistory(r, c, histOpts{churn: r.Chance(1, 6), extended: true, closes: true, params: true, binary: true, unknownNames: true, errs: r.Bool(), maxUnits: units(tier, 10)})
 			if r.Chance(1, 4) {
 				// a second connection, served afterwards on the same server, refers to
 				// the names the first one defined without defining them itself: they
